@@ -9,7 +9,10 @@ RULE = ("Programs: Hypothesis-generated with-programs (G1: generator / coroutine
         "__aenter__/__aexit__ suspend), plus a systematic table of exit shapes (kind x sync/async x nesting shape x "
         "place x how the body ends x branch x swallow); each driven by a generated send/throw schedule and observed "
         "with extract(obj) and lowlevel.contexts_active_in_frame at EVERY suspension, on CPython 3.9/3.10/3.11/3.12. "
-        "Oracle: a shadow stack maintained by the managers' own __enter__/__exit__ code. A program is non-trivial "
+        "Oracle: a shadow stack maintained by the managers' own __enter__/__exit__ code. Static differential leg (3.10-3.12): "
+        "for every __exit__/__aexit__ call site in the standard library of the interpreter (inlined normal-path sequences, "
+        "their awaiting positions, WITH_EXCEPT_START handlers; a rotating 1/6 of the files in the quick tier, all in the "
+        "thorough tier) currently_exiting_context must name the with block whose line the compiler's line table gives the call. A program is non-trivial "
         "when at least one suspended observation had a non-empty shadow stack; distinct = distinct IR (content hash).")
 ASSUMPTIONS = [
     "the shadow stack (append at the end of __enter__/__aenter__, mark exiting at the start of __exit__/__aexit__, "
@@ -44,7 +47,10 @@ def classify(prog, stats, feats):
 
 
 def run(ctx):
-    return g1check.run(ctx, CFG, quick_n=320, thorough_n=40000, quick_table=200)
+    out = g1check.run(ctx, CFG, quick_n=640, thorough_n=60000, quick_table=100000, quick_shards=16)
+    from vlib import staticleg
+    staticleg.run(ctx, out, "static.exits", ["3.10", "3.11", "3.12"])
+    return out
 
 
 def replay(ctx, data):
